@@ -20,6 +20,7 @@ import (
 
 	martian "github.com/google/martian/v3"
 	"github.com/google/martian/v3/har"
+	"github.com/google/martian/v3/httpspec"
 	mlog "github.com/google/martian/v3/log"
 	"github.com/google/martian/v3/marbl"
 	"github.com/google/martian/v3/mitm"
@@ -203,6 +204,44 @@ func c02() []scenario {
 	}
 }
 
+func c14() []scenario {
+	// the spec stack's modifiers are shared by all connections: messages with different Connection lists pass
+	// through concurrently; each must lose exactly its own listed headers and keep the others
+	run := func() {
+		outer, _ := httpspec.NewStack("racebody")
+		worker := func(w int) func() {
+			return func() {
+				for k := 0; k < 300; k++ {
+					listed := fmt.Sprintf("X-Listed-%d", w)
+					kept := fmt.Sprintf("X-Listed-%d", (w+1)%4)
+					req, _ := http.NewRequest("GET", "http://example.com/", nil)
+					req.Header.Set("Connection", listed+", close")
+					req.Header.Set(listed, "1")
+					req.Header.Set(kept, "2")
+					req.Header.Set("Keep-Alive", "timeout=5")
+					_, remove, err := martian.TestContext(req, nil, nil)
+					if err != nil {
+						panic(err)
+					}
+					outer.ModifyRequest(req)
+					remove()
+					if req.Header.Get(listed) != "" || req.Header.Get("Keep-Alive") != "" {
+						fmt.Fprintf(os.Stderr, "RACEBODY VIOLATION hopbyhop:listed_header_survives a header named in this message's Connection header survived under concurrency\n")
+					}
+					if req.Header.Get(kept) != "2" {
+						fmt.Fprintf(os.Stderr, "RACEBODY VIOLATION hopbyhop:unlisted_header_removed an end-to-end header was removed because another concurrent message listed it\n")
+					}
+					if len(req.Header["Via"]) != 1 {
+						fmt.Fprintf(os.Stderr, "RACEBODY VIOLATION via:not_exactly_one_entry Via has %d lines under concurrency\n", len(req.Header["Via"]))
+					}
+				}
+			}
+		}
+		parallel(worker(0), worker(1), worker(2), worker(3))
+	}
+	return []scenario{{"c14: concurrent messages through one spec stack", run}}
+}
+
 type sink struct {
 	mu sync.Mutex
 	n  int
@@ -253,6 +292,9 @@ func main() {
 	}
 	if set == "c06" || set == "all" {
 		scen = append(scen, c06()...)
+	}
+	if set == "c14" || set == "all" {
+		scen = append(scen, c14()...)
 	}
 	if set == "c17" || set == "all" {
 		scen = append(scen, c17()...)
